@@ -61,3 +61,55 @@ pub fn replay_acquire_lock(sc: &Value) -> Value {
     }
     json!({"status": "done", "result": "Ok", "avalaible": avalaible, "locked": l, "queue": q, "requests": Value::Object(reqs)})
 }
+
+/// C20 (service loop): the real RoomLockService task driven through its public API with a scripted message sequence;
+/// the grants delivered after each message are reported.  A receiver is dropped right before the message during which the
+/// model saw the first failed send on its channel.
+pub fn replay_lock_service(sc: &Value) -> Value {
+    let rt = tokio::runtime::Builder::new_multi_thread().enable_all().worker_threads(2).build().unwrap();
+    rt.block_on(async {
+        let svc = RoomLockService::start(sc["max_lock"].as_u64().unwrap() as usize);
+        let msgs = sc["messages"].as_array().unwrap();
+        // (peer name, receiver, message index before which it is dropped)
+        let mut receivers: Vec<(String, Option<mpsc::UnboundedReceiver<Uid>>, Option<u64>)> = vec![];
+        let mut room_names: HashMap<Uid, String> = HashMap::new();
+        let mut grants: Vec<Vec<Vec<String>>> = vec![];
+        for (i, m) in msgs.iter().enumerate() {
+            for r in receivers.iter_mut() {
+                if r.2 == Some(i as u64) {
+                    r.1 = None;
+                }
+            }
+            if m["kind"].as_str().unwrap() == "request" {
+                let pname = m["peer"].as_str().unwrap().to_string();
+                let mut rooms = VecDeque::new();
+                for r in m["rooms"].as_array().unwrap() {
+                    let u = uid16(r.as_str().unwrap());
+                    room_names.insert(u, r.as_str().unwrap().to_string());
+                    rooms.push_back(u);
+                }
+                let (tx, rx) = mpsc::unbounded_channel::<Uid>();
+                let drop_at = m["drop_before_message"].as_u64();
+                let rx = if drop_at == Some(i as u64) { None } else { Some(rx) };
+                receivers.push((pname.clone(), rx, drop_at));
+                svc.request_locks(id32(&pname), rooms, tx).await;
+            } else {
+                let r = m["room"].as_str().unwrap();
+                room_names.insert(uid16(r), r.to_string());
+                svc.unlock(uid16(r)).await;
+            }
+            tokio::time::sleep(std::time::Duration::from_millis(40)).await;
+            let mut now: Vec<Vec<String>> = vec![];
+            for r in receivers.iter_mut() {
+                if let Some(rx) = r.1.as_mut() {
+                    while let Ok(room) = rx.try_recv() {
+                        now.push(vec![r.0.clone(), room_names.get(&room).cloned().unwrap_or_else(|| "?".to_string())]);
+                    }
+                }
+            }
+            now.sort();
+            grants.push(now);
+        }
+        json!({"status": "done", "grants": grants})
+    })
+}
